@@ -226,13 +226,26 @@ func vAttr(id string, sel int) (slog.Attr, []*vNode) {
 		// that is C03's subject (VC03_Time), not this property's
 		sec := []int64{0, 1700000000, -5}[vrt.Choice(id+".t", 3)]
 		return slog.Time(k, time.Unix(sec, 0)), []*vNode{{key: k, kind: "time", i: sec}}
+	case 16: // inside a group: a LogValuer member resolving to a group without attributes (omitted) between two that stay
+		x := vrt.Int64(id + ".gv")
+		vrt.Tag("attr=valuer-empty-group-inside-a-group")
+		return slog.Group(k, slog.Int64("a", x), slog.Any("h", vValuer{slog.GroupValue()}), slog.Any("v", vValuer{slog.Int64Value(x)}),
+				slog.Any("vg", vValuer{slog.GroupValue(slog.Bool("t", true))})),
+			[]*vNode{{key: k, obj: true, kids: []*vNode{{key: "a", kind: "int64", i: x}, {key: "v", kind: "int64", i: x},
+				{key: "vg", obj: true, kids: []*vNode{{key: "t", kind: "bool", b: true}}}}}}
+	case 17: // the same members inside an inline group and inside a LogValuer's group
+		x := vrt.Int64(id + ".iv")
+		vrt.Tag("attr=valuer-empty-group-inside-inline-group")
+		return slog.Group("", slog.Any(k+"h", vValuer{slog.GroupValue()}), slog.Int64(k+"a", x),
+				slog.Any(k+"w", vValuer{slog.GroupValue(slog.Any("h", vValuer{slog.GroupValue()}), slog.Int64("m", x))})),
+			[]*vNode{{key: k + "a", kind: "int64", i: x}, {key: k + "w", obj: true, kids: []*vNode{{key: "m", kind: "int64", i: x}}}}
 	default: // any other value: handed to the encoder as is
 		x := vrt.Int64(id + ".any")
 		return slog.Any(k, vPayload{x}), []*vNode{{key: k, kind: "reflected", i: x}}
 	}
 }
 
-const vMenuFull = 16
+const vMenuFull = 18
 
 var vLite = []int{0, 2, 3, 4, 5}
 
@@ -357,7 +370,7 @@ func vChain(n int, fullMenu bool, maxAttrs int) {
 //verif: prop=C18 bounds="derivation chains of 0..2 steps from {WithGroup(name), WithGroup(empty), WithAttrs(1 attr), WithAttrs(2 attrs)} over the 5-entry lite menu {int64, empty Attr, named group, inline group, group without attributes} then a record with 0..2 attributes (first from the lite menu here, from the full menu in VC18Attrs); full menu: int64/uint64/float64/bool/duration/time/string/any with symbolic payloads, empty Attr, named group, inline group, group without attributes, nested groups, LogValuers resolving to a scalar, a group and an empty group. Groups whose only members are empty attributes are outside the menu (log/slog's own handlers print {} for them)"
 func VC18Chain2() { vChain(2, false, 2) }
 
-//verif: prop=C18 bounds="0..1 derivation step with the full 16-entry menu, then a record whose first attribute is from the full menu and whose second from the lite menu"
+//verif: prop=C18 bounds="0..1 derivation step with the full 18-entry menu (scalars of every kind, empty attribute, named/inline/empty groups, LogValuers resolving to scalars, groups and empty groups, at top level and as members of groups), then a record whose first attribute is from the full menu and whose second from the lite menu"
 func VC18Attrs() { vChain(1, true, 2) }
 
 //verif: prop=C18 tier=thorough bounds="derivation chains of 0..3 steps (lite menu in derivations, full menu in the record)"
